@@ -161,6 +161,7 @@ Bulk == /\ IsEv("bulk") /\ E.exc = ""
 Exit == /\ IsEv("exit")
         /\ (Mode = "final" =>
               /\ E.twice = <<>> /\ E.bulknever = 0 /\ E.bulktwice = 0
+              /\ E.owndealloc = E.ownfin                 \* objects of a type with its own allocator: released through it, once per finalisation
               /\ \A i \in 1..Len(E.fin) : E.fin[i] > 0 /\ E.fin[i] \notin fins
               /\ ToSet(E.never) \subseteq {i \in DOMAIN ob : ob[i].mode # 0 /\ ob[i].live}      \* only undeleted root / raw objects may remain
               /\ \A i \in LiveIds(ob) : (ob[i].mode = 0 /\ ob[i].kind \in {1, 2}) => i \in ToSet(E.fin))
